@@ -8,6 +8,7 @@ mod ast;
 mod astops;
 mod engine;
 mod findings;
+mod fsmodel;
 mod gen;
 mod isolate;
 mod props;
